@@ -25,7 +25,7 @@ import (
 // loses none.
 
 const (
-	c12PipeEveryQuick    = 29 // 1500 of 43500 quick cases run the full pipeline
+	c12PipeEveryQuick    = 29 // 3000 of 87000 quick cases run the full pipeline
 	c12PipeEveryThorough = 41
 )
 
@@ -61,15 +61,20 @@ func init() {
 		},
 		NCases: func(tier string) int {
 			if tier == "thorough" {
-				return 1640000
+				return 2460000
 			}
-			return 43500
+			return 87000
 		},
 		Run:              c12Run,
 		CrashIsViolation: true,
 		CaseTimeoutS:     180,
 		MinObs: func(tier string) map[string]int64 {
-			return map[string]int64{}
+			return map[string]int64{
+				"items_evaluated": 250000, "items_accepted_by_reference": 100000, "items_rejected_by_reference": 100000, "items_where_and_differs_from_or": 80000,
+				"values_at_argument": 100000, "values_just_above_argument": 20000, "values_just_below_argument": 20000, "values_one_byte_off_argument": 15000, "values_containing_fragment_argument": 8000,
+				"reference_lookups": 35000, "reference_rows_inserted_by_sql": 250, "direct_inserts": 70000,
+				"pipeline_cases_at_head": 2500, "pipeline_items": 15000, "cases_with_address_restriction": 300, "logs_outside_address_restriction": 1500,
+			}
 		},
 	})
 }
@@ -868,10 +873,12 @@ func (sc *c12Scenario) judge(c *vk.Case, path string, items []*c12Item, gotIDs m
 	}
 	// items whose log the node never served say nothing about the filters
 	lost := map[*c12Item]string{}
+	unserved := map[*c12Item]bool{}
 	if excluded != nil {
 		for _, it := range items {
-			if it.want && !it.got {
-				if ex, key := excluded(it); ex {
+			if ex, key := excluded(it); ex && !it.got {
+				unserved[it] = true
+				if it.want {
 					lost[it] = key
 				}
 			}
@@ -884,12 +891,13 @@ func (sc *c12Scenario) judge(c *vk.Case, path string, items []*c12Item, gotIDs m
 		other = "or"
 	}
 	swapExplains, anyWrong := len(sc.sites) > 1, false
+	discriminating := 0 // items on which the two aggregations differ
 	explains := make([]bool, len(sc.sites))
 	for i := range explains {
 		explains[i] = true
 	}
 	for _, it := range items {
-		if _, isLost := lost[it]; isLost {
+		if unserved[it] {
 			continue
 		}
 		if it.got != it.want {
@@ -897,6 +905,9 @@ func (sc *c12Scenario) judge(c *vk.Case, path string, items []*c12Item, gotIDs m
 		}
 		if it.got != c12Fold(other, it.results, it.counted) {
 			swapExplains = false
+		}
+		if c12Fold("and", it.results, it.counted) != c12Fold("or", it.results, it.counted) {
+			discriminating++
 		}
 		for i := range sc.sites {
 			ok := c12Fold(sc.agg, it.results, it.counted) == it.got
@@ -944,7 +955,7 @@ func (sc *c12Scenario) judge(c *vk.Case, path string, items []*c12Item, gotIDs m
 		case len(explainers) == 1 && !swapExplains:
 			s := sc.sites[explainers[0]]
 			c.Violate(s.key(), merge(det, map[string]any{"attributed_to": s.describe()}), "%s: item %s %s; every outcome of the case is explained by filter %s alone", path, it.id, dir, s.describe())
-		case swapExplains && len(explainers) == 0:
+		case swapExplains && len(explainers) == 0 && discriminating >= 3:
 			c.Violate(fmt.Sprintf("filter-agg:declared=%s:behaves-as=%s", aggName(sc.agg), other), det, "%s: item %s %s; every outcome of the case matches aggregation %q instead of the declared %q", path, it.id, dir, other, sc.agg)
 		default:
 			var ex []string
